@@ -78,7 +78,10 @@ use autosar_data_specification::{AttributeSpec, CharacterDataSpec, ContentMode, 
 use fxhash::{FxBuildHasher, FxHashMap};
 use indexmap::IndexMap;
 pub use iterators::*;
+#[cfg(not(feature = "verif"))]
 use parking_lot::RwLock;
+#[cfg(feature = "verif")]
+use crate::verif::RwLock;
 use parser::ArxmlParser;
 use smallvec::SmallVec;
 use std::collections::HashSet;
@@ -95,6 +98,8 @@ mod elementraw;
 mod iterators;
 mod lexer;
 mod parser;
+#[cfg(feature = "verif")]
+pub mod verif;
 
 // allow public access to the error sub-types
 pub use lexer::ArxmlLexerError;
